@@ -63,7 +63,7 @@ def subcase(case, gi):
     return c
 
 
-def check_case(chk: Check, case, exp, *, groups_independent=True):
+def check_case(chk: Check, case, exp, *, groups_independent=True, exp_variant=None):
     import numpy as np
     from .objective import real_objective
     feats = features(case)
@@ -72,7 +72,7 @@ def check_case(chk: Check, case, exp, *, groups_independent=True):
     chk.evaluations += 1
     vec, tags, add = expected_penalty_vector(exp)
     try:
-        pen, o, w = real_objective(case)
+        pen, o, w = real_objective(case, free_model_params=True)
     except Exception as ex:  # noqa: BLE001
         chk.violation(f"Objective[raises {type(ex).__name__}]: {feats}", f"objective_function raised {type(ex).__name__}: {str(ex)[:300]} on an in-premise case {cid}", rep)
         return
@@ -117,6 +117,29 @@ def check_case(chk: Check, case, exp, *, groups_independent=True):
             # the order of merged labels is not part of the property (C06: outputs follow their labels): compare as sets, no duplicates
             if sorted(full) != sorted(b["labels"]) or sorted(red) != sorted(b["reduced"]) or len(set(full)) != len(full):
                 chk.violation(f"Objective[labels]: {feats}", f"group {gi} block {bi}: labels {full} reduced {red}; specification {b['labels']} reduced {b['reduced']} (case {cid})", rep)
+    # every value of the non-linear parameters: evaluate the SAME optimizer at a second parameter point and again at the first
+    if exp_variant is not None:
+        from .lattice import variant, x_of
+        case1 = variant(case)
+        labels1, x1 = x_of(case1)
+        if list(labels1) != list(o._free_parameter_labels):
+            raise MachineryError("variant changes the parameter labels")
+        vec1, tags1, _ = expected_penalty_vector(exp_variant)
+        try:
+            with warnings.catch_warnings():
+                warnings.simplefilter("ignore")
+                pen1 = np.asarray(o.objective_function(x1), dtype=float)
+                pen0 = np.asarray(o.objective_function(o._verif_x0), dtype=float)
+        except Exception as ex:  # noqa: BLE001
+            chk.violation(f"Objective[second evaluation raises {type(ex).__name__}]: {feats}", f"second evaluation raised {type(ex).__name__}: {str(ex)[:300]} (case {cid})", rep)
+            return
+        chk.traces += 2
+        if len(pen1) != len(vec1) or not all(close(float(a), b) for a, b in zip(pen1, vec1)):
+            j = next((j for j, (a, b) in enumerate(zip(pen1, vec1)) if not close(float(a), b)), -1)
+            chk.violation(f"Objective[second parameter point]: {feats}",
+                          f"evaluated after another point: entry {j} ({tags1[j] if 0 <= j < len(tags1) else 'length'}) impl {pen1.tolist()} spec {[float(v) for v in vec1]}; parameters {dict(zip(labels1, x1.tolist()))} (case {cid})", rep)
+        if pen0.shape != pen.shape or not np.array_equal(pen0, pen):
+            chk.violation(f"Objective[return to first point]: {feats}", f"objective at x0 after visiting x1 differs from the first evaluation: {pen0.tolist()} vs {pen.tolist()} (case {cid})", rep)
     # groups contribute independently: the slice of group g equals the vector of the scheme containing only group g
     if groups_independent and len(case["groups"]) > 1:
         start = 0
@@ -133,6 +156,11 @@ def check_case(chk: Check, case, exp, *, groups_independent=True):
             start += len(v1)
     if len(feats) >= 3 and any(v != 0 for v in vec):
         chk.nontriv(cid)
+
+
+def exp_var_of(pos, exp_var):
+    e = exp_var.get(pos)
+    return e if e is not None and in_premise(e) else None
 
 
 def run(tier: str, replay=None) -> int:
@@ -152,27 +180,34 @@ def run(tier: str, replay=None) -> int:
         "float vs exact: 1e-9 relative to max(1, |value|)",
     ]
     if replay:
+        from .lattice import variant
         case = replay["replay"]["case"]
-        exp, tot = tlc_expected([case], shards=1)
+        v = variant(case)
+        exp, tot = tlc_expected([case] + ([v] if v else []), shards=1)
         chk.add_tlc(tot)
         if in_premise(exp[0]):
-            check_case(chk, case, exp[0])
+            check_case(chk, case, exp[0], exp_variant=exp[1] if v and in_premise(exp[1]) else None)
         else:
             chk.skip("replayed case outside premise: " + ",".join(why_not(exp[0])))
         return chk.finish()
+    from .lattice import variant
     n = 1500 if tier == "quick" else 40000
     cases = [gen_case(rng) for _ in range(n)]
-    exp, tot = tlc_expected(cases, shards=8 if tier == "quick" else 14)
+    variants = [variant(c) for c in cases]
+    vidx = [i for i, v in enumerate(variants) if v is not None]
+    exp_all, tot = tlc_expected(cases + [variants[i] for i in vidx], shards=8 if tier == "quick" else 14)
+    exp = exp_all[:n]
+    exp_var = {i: e for i, e in zip(vidx, exp_all[n:])}
     chk.add_tlc(tot, "ObjectiveCases")
     chk.exhaustive = False
     nin = 0
-    for case, e in zip(cases, exp):
+    for case_pos, (case, e) in enumerate(zip(cases, exp)):
         if not in_premise(e):
             for r in why_not(e):
                 chk.skip(f"outside premise: {r}")
             continue
         nin += 1
-        check_case(chk, case, e)
+        check_case(chk, case, e, exp_variant=exp_var_of(case_pos, exp_var))
         if nin % 211 == 1:
             chk.sample({"features": features(case), "case": case})
     if nin < n // 4:
